@@ -1,3 +1,3 @@
 From Coq Require Import Extraction ExtrOcamlBasic NArith List.
-From C16 Require Import Model.
-Extraction "Model.ml" parse parse_old.
+From C16 Require Import Model Render.
+Extraction "Model.ml" parse parse_old render_case.
